@@ -2832,12 +2832,19 @@ BOOST_PP_REPEAT(BOOST_PP_ADD(BOOST_MSM_VISITOR_ARG_SIZE,1), MSM_VISITOR_ARGS_EXE
      {
         // by default we activate the history/init states, can be overwritten by direct_event_start_helper
         region_entry_exit_helper< ::boost::mpl::int_<0> >::do_entry(this,incomingEvent);
-        // block immediate handling of events
-        m_event_processing = true;
-        // if the event is generating a direct entry/fork, set the current state(s) to the direct state(s)
-        direct_event_start_helper(this)(incomingEvent,fsm);
+        {
+            // block immediate handling of events; unblocked when the entry sequence is left,
+            // also when an entry behaviour throws (the exception is caught by the enclosing machine)
+            struct processing_guard
+            {
+                processing_guard(bool& flag):m_flag(flag){m_flag = true;}
+                ~processing_guard(){m_flag = false;}
+                bool& m_flag;
+            } guard(m_event_processing);
+            // if the event is generating a direct entry/fork, set the current state(s) to the direct state(s)
+            direct_event_start_helper(this)(incomingEvent,fsm);
+        }
         // handle messages which were generated and blocked in the init calls
-        m_event_processing = false;
         // give a chance to handle an anonymous (eventless) transition of the entered states
         // BEFORE any other event (UML Standard 2.3 15.3.14); deferred and queued events follow below
         handle_eventless_transitions_helper<library_sm> eventless_helper(this,true);
